@@ -385,3 +385,32 @@ pub fn t_scoped_shared_user_panics<C: RawLock + RawLockD + crate::lockable::Shar
 	kani::cover!(user_panics && ran, "panic_in_closure");
 	kani::cover!(which == 0 || !ran, "try_failed");
 }
+
+/// the retrying collection's blocking acquisition with every member FREE (no back-off): a fault in the try of a
+/// member two or more positions after the blocking-locked one (finding F2(b): member i-1 leaked) - cheap enough
+/// for N = 3, where the general harness (symbolic foreign holds) does not finish
+pub fn t_fault_retry_blocking_all_free<L: Killed<N> + Make<N>, const N: usize>(write: bool)
+where
+	L: crate::lockable::Sharable + crate::lockable::OwnedLockable,
+{
+	let c = RetryingLockCollection::new(L::make([0; N]));
+	let l = c.child();
+	let pre = snaps(&l.states());
+	w().fault_class = 1;
+	w().fault_at = any_fault_index(N as u8 + 1);
+	let r = if write { x::raw_write(&c) } else { x::raw_read(&c) };
+	post_oneshot(l, &pre, r.is_err(), true, N as u8);
+	kani::cover!(w().faults == 1 && w().d_ops as usize == N, "fault_in_the_last_try");
+	kani::cover!(r.is_ok(), "acquired");
+}
+
+dharness! {
+#[kani::unwind(5)]
+fn dia_q_retry_rw3_write_all_free_acq() {
+	t_fault_retry_blocking_all_free::<[RW; 3], 3>(true);
+}}
+dharness! {
+#[kani::unwind(5)]
+fn dia_q_retry_rw3_read_all_free_acq() {
+	t_fault_retry_blocking_all_free::<[RW; 3], 3>(false);
+}}
